@@ -283,6 +283,12 @@ template<class T>
 static void malloc_answers()
 {
   std::vector<uint64_t> answers = { 0, 1, 8, 16, kSize / 2, kSize - 64, kSize - 16, kSize - 8, kSize - 4, kSize - 2, kSize - 1 };
+#ifdef MBOX_UNCONFINED
+  // the allocator's answer is a representation beyond the region: with a base + representation backend it designates
+  // application memory, the neighbouring instance's region, or wraps
+  for (uint64_t a : { kSize, kSize + 8, 2 * kSize, (uint64_t)(g_obase - g_base), (uint64_t)(g_obase - g_base) + 64, (uint64_t)0x7fffffff, (uint64_t)0xfffffff0, (uint64_t)0xffffffff })
+    if (a <= (uint64_t)std::numeric_limits<PtrT>::max()) answers.push_back(a);
+#endif
   for (uint64_t ans : answers)
     for (uint32_t count : { 1u, 2u, 3u, 16u, 4096u, 65535u, 0x10000u, 0x7fffffffu, 0xffffffffu }) {
       g_sb->get_sandbox_impl()->menv.override_next = true;
